@@ -80,7 +80,7 @@ def install(it, rec):
 
 def run(vc):
     vc.configure = configure
-    vc.trust("numpy.interp / scipy.interpolate.interp1d / PchipInterpolator pass through their support points (strictly increasing x)",
+    vc.trust("numpy.interp / scipy.interpolate.interp1d / PchipInterpolator pass through their support points (strictly increasing x; interp1d for x in any order unless assume_sorted=True, which is an obligation on the call)",
              "log10 / power: 10 ** log10(y) == y for y > 0")
     vc.assume_std("A-REAL", "A-GENERIC")
     sp = Space.get("pts")
@@ -134,6 +134,9 @@ def run(vc):
                     if kind == "interp1d":
                         p.prove(f"{tag}:kind", o.kwargs.get("kind") == (user_kind or "quadratic"), note="the user's kind, 'quadratic' by default")
                         p.prove(f"{tag}:bounds_error", o.kwargs.get("bounds_error") is False)
+                        # precondition of the assumed scipy contract for support points in any order: interp1d sorts them itself
+                        p.prove(f"{tag}:interp1d-sorts-the-support-points", o.kwargs.get("assume_sorted", False) is False,
+                                note="interp1d(..., assume_sorted=True) passes through the support points only for increasing x")
                         fv = o.kwargs.get("fill_value")
                         p.prove(f"{tag}:fill_value", isinstance(fv, SV) and z3.eq(fv.z, z3.Real("user_fill_value")))
                 cls_excl = p.it.getattr(c, "json_excludes")
